@@ -14,6 +14,7 @@ import (
 	"net/http/httptest"
 	"net/url"
 	"os"
+	"regexp"
 	"sort"
 	"strconv"
 	"strings"
@@ -169,7 +170,30 @@ type Env struct {
 	uploads []string
 	// HypothesisFailures collects violated environment assumptions (clock).
 	HypothesisFailures []string
+	// frozen, when set, is the view against which symbolic conditions are resolved (tie T3: the
+	// concurrent requests are all built against the state after the sequential prefix).
+	frozen map[string][3]int64
+	// RawGens prints generations as #g<raw value> (ranked after the run, see RankGens).
+	RawGens bool
 }
+
+// Freeze records generation / metageneration of the named objects; later symbolic conditions are
+// resolved against this record instead of the live store.
+func (e *Env) Freeze(names [][2]string) {
+	fr := map[string][3]int64{}
+	for _, bn := range names {
+		g, m, ok := e.current(bn[0], bn[1])
+		o := int64(0)
+		if ok {
+			o = 1
+		}
+		fr[bn[0]+"\x00"+bn[1]] = [3]int64{g, m, o}
+	}
+	e.frozen = fr
+}
+
+// Gens returns the distinct generations seen so far, ascending.
+func (e *Env) Gens() []int64 { return append([]int64{}, e.gens...) }
 
 func Stores(which string) []core.Config {
 	all := []core.Config{
@@ -259,6 +283,47 @@ func (e *Env) rank(g int64) int {
 	return i + 1
 }
 
+func (e *Env) rankStr(g int64) string {
+	if e.RawGens {
+		return fmt.Sprintf("g%d", g)
+	}
+	return fmt.Sprint(e.rank(g))
+}
+
+var rawGenRe = regexp.MustCompile(`#g(-?\d+)`)
+
+// RankGens replaces every #g<raw> token by the rank of that generation among base and all raw
+// generations occurring in the lines.
+func RankGens(base []int64, lines []string) []string {
+	set := map[int64]bool{}
+	for _, g := range base {
+		set[g] = true
+	}
+	for _, l := range lines {
+		for _, m := range rawGenRe.FindAllStringSubmatch(l, -1) {
+			g, _ := strconv.ParseInt(m[1], 10, 64)
+			set[g] = true
+		}
+	}
+	var all []int64
+	for g := range set {
+		all = append(all, g)
+	}
+	sort.Slice(all, func(i, j int) bool { return all[i] < all[j] })
+	rank := map[int64]int{}
+	for i, g := range all {
+		rank[g] = i + 1
+	}
+	out := make([]string, len(lines))
+	for i, l := range lines {
+		out[i] = rawGenRe.ReplaceAllStringFunc(l, func(tok string) string {
+			g, _ := strconv.ParseInt(tok[2:], 10, 64)
+			return fmt.Sprintf("#%d", rank[g])
+		})
+	}
+	return out
+}
+
 type objJSON struct {
 	Bucket         string            `json:"bucket"`
 	Name           string            `json:"name"`
@@ -291,8 +356,8 @@ func (e *Env) showObj(o *objJSON) string {
 	for _, k := range keys {
 		um = append(um, hs(k)+":"+hs(o.Metadata[k]))
 	}
-	return fmt.Sprintf("b=%s name=%s size=%s md5=%s ct=%s cc=%s gen=#%d mg=%s um=%s cmp=%d",
-		hs(o.Bucket), hs(o.Name), size, hs(o.Md5Hash), hs(o.ContentType), hs(o.CacheControl), e.rank(g), mg, strings.Join(um, ","), o.ComponentCount)
+	return fmt.Sprintf("b=%s name=%s size=%s md5=%s ct=%s cc=%s gen=#%s mg=%s um=%s cmp=%d",
+		hs(o.Bucket), hs(o.Name), size, hs(o.Md5Hash), hs(o.ContentType), hs(o.CacheControl), e.rankStr(g), mg, strings.Join(um, ","), o.ComponentCount)
 }
 
 func statusLine(code int) string { return fmt.Sprintf("status %d", code) }
@@ -301,6 +366,13 @@ func statusLine(code int) string { return fmt.Sprintf("status %d", code) }
 func (e *Env) current(b, n string) (gen, mg int64, ok bool) {
 	if n == "" {
 		return 0, 0, false
+	}
+	if e.frozen != nil {
+		v, found := e.frozen[b+"\x00"+n]
+		if !found {
+			panic("condition on an object outside the frozen view: " + b + "/" + n)
+		}
+		return v[0], v[1], v[2] == 1
 	}
 	rec := e.do("GET", "/storage/v1/b/"+b+"/o/"+n, "alt=json", nil, nil)
 	if rec.Code != 200 {
@@ -542,7 +614,7 @@ func (e *Env) Exec(cop core.Op) (resp string) {
 			return statusLine(rec.Code)
 		}
 		g, _ := strconv.ParseInt(rec.Header().Get("X-Goog-Generation"), 10, 64)
-		return fmt.Sprintf("media ct=%s gen=#%d mg=%s data=%s", hs(rec.Header().Get("Content-Type")), e.rank(g), rec.Header().Get("X-Goog-Metageneration"), hx(rec.Body.Bytes()))
+		return fmt.Sprintf("media ct=%s gen=#%s mg=%s data=%s", hs(rec.Header().Get("Content-Type")), e.rankStr(g), rec.Header().Get("X-Goog-Metageneration"), hx(rec.Body.Bytes()))
 	case "patch":
 		q := e.condQuery(o.B, o.N, o.Conds)
 		q.Set("alt", "json")
